@@ -358,8 +358,16 @@ pub fn new_interp(spec_clock_start: i64, random_seed: u64) -> Host {
     new_interp_with(spec_clock_start, random_seed, &BTreeMap::new())
 }
 
+/// The harness library: an internal SOURCE module registered on every simulated interpreter (it is
+/// instantiated lazily, on first import). Its functions use globals (`undefined`, `Array`,
+/// `String`, ...), read free identifiers (`probe`), keep module state and hand out fresh objects.
+pub const LIB_UTIL: &str = "let calls: number = 0;\nexport const seed: any = { base: 7, list: [1, 2, { deep: true }] };\nexport function probe(): string { return [typeof __log, typeof __show, typeof __tag, typeof vr, typeof ur, typeof wr, typeof inner].join(\",\"); }\nexport function kinds(x: any): string { calls += 1; return (x === undefined ? \"u\" : Array.isArray(x) ? \"a\" : String(typeof x)) + \":\" + Number(\"4\") + Boolean(1) + (NaN !== NaN) + (1 / 0 === Infinity); }\nexport function mk(n: any): any { return { n: n, from: seed.list.slice(0, 2), tag: String(n) }; }\nexport function bumpLib(n: any): number { seed.base += 1; seed.list.push({ added: n }); if (seed.list.length > 6) { seed.list.splice(3, 1); } return seed.base - calls * 0; }\nexport default { name: \"util\", v: 1 };\n";
+
 pub fn new_interp_with(spec_clock_start: i64, random_seed: u64, internal_sources: &BTreeMap<String, String>) -> Host {
     let mut internal_modules = vec![create_eval_internal_module()];
+    if !internal_sources.contains_key("lib:util") {
+        internal_modules.push(tsrun::InternalModule::source("lib:util".to_string(), LIB_UTIL.to_string()));
+    }
     for (k, v) in internal_sources {
         internal_modules.push(tsrun::InternalModule::source(k.clone(), v.clone()));
     }
